@@ -48,6 +48,8 @@ Ops(shape) ==
   \* and the same after add_jitter (the sum is then routed through the diagonal part)
   \cup { <<a, <<pc, sz>>>> : a \in {"add_op", "sub_op", "jitter_add_op"}, pc \in 1..5, sz \in {x \in {1, 2, 3, 5} : ~T_BCompat(shape, <<x, x>>)} }
   \cup { <<"expand", s>> : s \in {x \in Shapes3 : ~T_Expandable(shape, x)} }
+  \* -1 ("keep this size") is only meaningful for an existing dimension: in a new leading dimension torch refuses it
+  \cup { <<"expand", <<-1>> \o shape>>, <<"expand", <<2, -1>> \o shape>> }
   \cup { <<"cat_rows_dim", <<m, n + 1>>>>, <<"cat_cols_dim", <<m + 1, n>>>> }
   \cup UNION { { <<"getitem_int", <<p, v>>>> : v \in {shape[p], shape[p] + 2, -shape[p] - 1} } : p \in 1..Len(shape) }
   \cup UNION { { <<"getitem_ten", <<p, v>>>> : v \in {shape[p], -shape[p] - 1} } : p \in 1..Len(shape) }
